@@ -174,7 +174,7 @@ PROPS = {
                 'distinct by (family, parameter)',
         'evaluations_key': 'cases_run',
         'dead_worker_is_violation': True,
-        'floors': {'quick': {'cases_run': 400, 'cases_via_parse_sv': 20, 'cases_via_parse_sv_str': 20, 'family:macro-chain': 80, 'family:include-chain': 80, 'family:macro-cycle': 8, 'family:include-cycle': 5, 'family:mixed-chain': 32,
+        'floors': {'quick': {'cases_run': 400, 'cases_after_failed_calls': 200, 'cases_via_parse_sv': 20, 'cases_via_parse_sv_str': 20, 'family:macro-chain': 80, 'family:include-chain': 80, 'family:macro-cycle': 8, 'family:include-cycle': 5, 'family:mixed-chain': 32,
                              'family:macro-include-cycle': 6, 'legal_depths_ok': 150, 'limits_reported': 80},
                    'thorough': {'cases_run': 6000}},
         'technique': 'runtime monitor over constructed recursion families: expected outcome by construction, a logical frame bound injected through the preprocess_str entry hook turns runaway recursion into a caught, replayable violation; process supervision catches stack overflow',
@@ -250,7 +250,7 @@ PROPS = {
         'rule': 'one case = one accepted program (G-SV or directive-free corpus program) with up to four single faults: a byte that starts no token (0x01, 0x7f, section sign, currency sign) inserted at a token start, one bracket or block-closing keyword deleted, an unterminated string / block comment or a lone backslash inserted; '
                 'with and without include indirection (the tail of complete descriptions, or the whole program, moved into an included file); distinct by hash of (mutant, fault kind, indirection)',
         'evaluations_key': 'mutants',
-        'floors': {'quick': {'accepted_programs': 4000, 'mutants': 9000, 'fault:bad-byte': 5000, 'deletions_rejected': 1000, 'locations_ok': 7000, 'faults_inside_included_file': 2000,
+        'floors': {'quick': {'accepted_programs': 4000, 'mutants': 9000, 'fault:bad-byte': 5000, 'deletions_rejected': 1000, 'locations_ok': 7000, 'faults_inside_included_file': 2000, 'include_length_lines_up_with_directive_end': 400,
                              'fault:unterminated-string': 800, 'fault:lone-backslash': 1000},
                    'thorough': {'mutants': 200000}},
         'technique': 'runtime monitor with fault injection: single lexical/structural faults injected at known offsets into accepted programs; error variant, file and offset of the real parser compared with the injected position',
